@@ -1929,3 +1929,160 @@ def check_C20(work, tier, seed):
 
 
 CHECKS.update({"C20": check_C20})
+
+
+# ------------------------------------------------------------------ C18 thread safety
+
+def split_threads(lines):
+    """driver output in thread mode: prologue lines, then per thread a marker + its lines"""
+    pro, threads, cur = [], [], None
+    for ln in lines:
+        if ln.startswith('{"e":"thread"'):
+            cur = []
+            threads.append(cur)
+        elif cur is None:
+            pro.append(ln)
+        else:
+            cur.append(ln)
+    return pro, threads
+
+
+def strip_caps(text):
+    import re
+    return re.sub(r" cap=\d", "", text)
+
+
+def gen_shared(seed, tier):
+    sc = Sc(seed)
+    sc.reset("c18-shared")
+    keys = {"s128": sc.rb(32), "s64": sc.rb(24)}
+    for kind in ("s128", "s64"):
+        sc.ks_set_key(kind, 7, keys[kind])
+        sc.par_init(kind, 7)
+        sc.par_set_key(kind, 7, keys[kind])
+    sc.mk_set_key(7, sc.rb(16), 7, 1)
+    sc.mk_set_tweak(7, sc.rb(8))
+    sc.par_init("mantis", 7)
+    sc.par_set_key("mantis", 7, sc.rb(16), rounds=6, mode=0)
+    sc.raw("share")
+    sc.raw("threads n=%d" % (16 if tier == "thorough" else 12))
+    n = 60 if tier == "thorough" else 24
+    for i in range(n):
+        for kind in ("s128", "s64"):
+            bs = BS[kind]
+            blk = sc.rb(bs)
+            sc.ks_crypt(True, kind, 7, blk)
+            sc.lines[-1] += " sh=1"
+            sc.ks_crypt(False, kind, 7, blk)
+            sc.lines[-1] += " sh=1"
+            sc.par_crypt(kind, 7, sc.rb(sc.rng.choice((1, 8, 9, 17)) * bs), enc=bool(i % 2))
+            sc.lines[-1] += " sh=1"
+        sc.mk_crypt(7, sc.rb(8))
+        sc.lines[-1] += " sh=1"
+        sc.mk_crypt(7, sc.rb(8), tweak=sc.rb(8))
+        sc.lines[-1] += " sh=1"
+        nb = sc.rng.choice((3, 8, 11))
+        sc.par_crypt("mantis", 7, sc.rb(nb * 8), tweak=sc.rb(nb * 8))
+        sc.lines[-1] += " sh=1"
+        if i % 6 == 0:
+            # own objects used next to the shared ones
+            sc.ctr_init("s128", 0)
+            sc.ctr_set_key("s128", 0, sc.rb(16))
+            sc.ctr_encrypt("s128", 0, sc.rb(70))
+            sc.ctr_cleanup("s128", 0)
+    return sc
+
+
+def static_data_bytes(b):
+    """.data + .bss over all objects of the (guard-off) library"""
+    rc, outp = sh(["size", "-A", b.lib], check=True)
+    total = 0
+    detail = []
+    for ln in outp.split("\n"):
+        parts = ln.split()
+        if len(parts) >= 2 and parts[0] in (".data", ".bss") and parts[1].isdigit():
+            total += int(parts[1])
+            if int(parts[1]):
+                detail.append(ln.strip())
+    return total, detail
+
+
+def check_C18(work, tier, seed):
+    out = Outcome()
+    r, ok = run_mc(work, out, "MC_Threads", "MC_Threads", must_cover=("DoStep",))
+    if not ok:
+        mc_violation("C18", out, "MC_Threads", r)
+    run_mc(work, out, "MC_Threads", "MCneg_Threads_scratch", expect_fail=True)
+    run_mc(work, out, "MC_Threads", "MCneg_Threads_cache", expect_fail=True)
+    b = build(work)
+    nthreads = 16 if tier == "thorough" else 8
+    # (i) distinct objects in concurrent threads: each thread's trace = the sequential trace
+    text = strip_caps(gen_composite(seed, tier))
+    text = thin(text, 2 if tier == "thorough" else 4, seed)
+    ref = conform(work, b, "C18", seed, text, out, tag="-seq")
+    for rep in range(3 if tier == "thorough" else 2):
+        mt_text = text.replace("env\nlayout\n", "env\nlayout\nthreads n=%d\n" % nthreads, 1)
+        lines = run_drv(b, mt_text, timeout=600)
+        out.events += len(lines)
+        pro, threads = split_threads(lines)
+        if len(threads) != nthreads:
+            raise Broken("thread mode produced %d thread traces" % len(threads))
+        for ti, tl in enumerate(threads):
+            h, diff = compare_axis(work, ref, pro + tl, "thread %d" % ti, "C18", seed, out)
+            if diff:
+                sub = Outcome()
+                conform_lines(work, "C18", seed, pro + [ln for ex in diff for ln in ex], text, sub, tag="-t%d" % ti)
+                if not sub.violations:
+                    p = save_replay("C18", seed, 600 + ti, pro + diff[0], "thread trace differs from sequential trace")
+                    sub.violations.append(("differs:thread", p, "thread %d: execution %s differs from the sequential run" % (ti, diff[0][0][:80])))
+                out.merge(sub)
+    # (ii) one read-only key schedule / parallel object shared by many threads
+    ssc = gen_shared(seed, tier)
+    lines = run_drv(b, ssc.text(), timeout=600)
+    out.events += len(lines)
+    pro, threads = split_threads(lines)
+    first = None
+    for ti, tl in enumerate(threads):
+        full = pro + tl
+        if first is None:
+            first = full
+            sub = Outcome()
+            conform_lines(work, "C18", seed, full, ssc.text(), sub, tag="-shared")
+            out.merge(sub)
+        elif full == first:
+            out.traces_identity += 1
+        else:
+            sub = Outcome()
+            conform_lines(work, "C18", seed, full, ssc.text(), sub, tag="-shared%d" % ti)
+            if not sub.violations:
+                p = save_replay("C18", seed, 650 + ti, full, "shared-object thread trace differs")
+                sub.violations.append(("differs:shared", p, "thread %d using the shared read-only objects saw different results" % ti))
+            out.merge(sub)
+    # (iii) structural fact from the guard-off build: no writable static storage
+    b0 = build(work, name="nohook", hooks=False, drv=False)
+    nbytes, detail = static_data_bytes(b0)
+    fact = [json.dumps({"e": "static_data", "bytes": nbytes, "detail": detail[:5]})]
+    rr = validate_trace(work, fact)
+    out.traces_tlc += 1
+    if not rr.accepted:
+        p = save_replay("C18", seed, 699, fact, "library has writable static storage")
+        out.violations.append(("static_data", p, "library objects contain %d bytes of .data/.bss: %s" % (nbytes, detail[:3])))
+    note_distinct(out, ref, ("o", "n"))
+    out.samples = sample_events([x for x in lines if '"sh":1' in x], n=3, maxlen=200) + fact
+    return out, dict(
+        level="model_checking",
+        rule="Design: MC_Threads (TLC exhaustive): 3 threads x 2 calls, every interleaving at footprint-step "
+             "granularity: no write outside the caller's own objects, results = sequential results; a static scratch "
+             "buffer and an unsynchronised cached probe must fail. Code: (i) %d threads run the scenario sets of "
+             "C01-C07/C10/C14 concurrently on distinct objects (concurrent inits included): every per-thread trace "
+             "must equal the TLC-validated sequential trace; (ii) one key schedule of each cipher and one parallel "
+             "object of each kind, placed in PROT_READ memory (heap context included), used by 12-16 threads at once "
+             "next to their own objects: traces validated by TLC, any write is a crash event; (iii) the guard-off "
+             "library has 0 bytes of .data/.bss (event validated by the trace spec). No cross-thread ordering is "
+             "recorded or needed: each thread has its own trace." % nthreads,
+        assumptions=["interleavings on the real machine are sampled by repetition, not enumerated",
+                     "race detection proper (happens-before) is not attempted; absence of shared writable state is "
+                     "shown structurally (no static storage, read-only shared objects)"])
+
+
+CHECKS.update({"C18": check_C18})
